@@ -37,16 +37,46 @@ func chance(t *rapid.T, p int) bool { return pct.Draw(t, "p") < p }
 
 // shapes are the rule-interaction patterns of DESIGN §2 C06; every shape returns a short chunk.
 var shapeNames = []string{"any", "cm-chain", "spaces", "numeric", "ri", "hebrew", "midletter", "emoji", "hangul", "grapheme-misc",
-	"katakana-enl", "wsegspace", "newline", "quotes-brackets", "real"}
+	"katakana-enl", "wsegspace", "newline", "quotes-brackets", "real", "edge"}
 
-func genChunk(t *rapid.T, ps *poolSet, shape string) []rune {
-	L := func(names ...string) rune { return pick(t, ps.line[pickStr(t, names...)]) }
-	G := func(names ...string) rune { return pick(t, ps.gr[pickStr(t, names...)]) }
-	W := func(names ...string) rune { return pick(t, ps.wd[pickStr(t, names...)]) }
+// insPoint is a place of a generated chunk where the shape has a repeated element ("SP*",
+// "(CM|ZWJ)*", "(NU|SY|IS)*", RI runs, Extend* ...): the long-structure generator inserts a long
+// run of the same kind of element there.
+type insPoint struct {
+	at   int
+	kind string // attach | CM | SP | num | RI | Extend | hangul | kat
+}
+
+// genChunk returns one chunk of the given shape. Class-based picks draw half of the time from the
+// class representatives and half of the time from all concrete edge code points of that class
+// (reps_test.go edgePoints). rec, when not nil, receives the repetition points of the chunk.
+func genChunk(t *rapid.T, ps *poolSet, shape string, rec *[]insPoint) []rune {
+	from := func(reps, wide map[string][]rune, names ...string) rune {
+		n := pickStr(t, names...)
+		if w := wide[n]; len(w) > 0 && chance(t, 50) {
+			return pick(t, w)
+		}
+		return pick(t, reps[n])
+	}
+	L := func(names ...string) rune { return from(ps.line, ps.lineX, names...) }
+	G := func(names ...string) rune { return from(ps.gr, ps.grX, names...) }
+	W := func(names ...string) rune { return from(ps.wd, ps.wdX, names...) }
+	anyRune := func() rune {
+		if chance(t, 30) {
+			return pick(t, ps.edge)
+		}
+		return pick(t, ps.all)
+	}
 	var out []rune
 	add := func(rs ...rune) { out = append(out, rs...) }
+	mark := func(kind string) {
+		if rec != nil {
+			*rec = append(*rec, insPoint{len(out), kind})
+		}
+	}
 	// attach: (CM | Extend | Format | ZWJ)* after a base
 	attach := func(p int) {
+		mark("attach")
 		for chance(t, p) && len(out) < 80 {
 			switch small.Draw(t, "att") {
 			case 0:
@@ -63,10 +93,11 @@ func genChunk(t *rapid.T, ps *poolSet, shape string) []rune {
 	switch shape {
 	case "any":
 		for k := 1 + small.Draw(t, "n"); k > 0; k-- {
-			add(pick(t, ps.all))
+			add(anyRune())
 		}
 	case "cm-chain": // X CM* ZWJ? Y
-		add(pick(t, ps.all))
+		add(anyRune())
+		mark("CM")
 		for k := small.Draw(t, "n"); k > 0; k-- {
 			add(L("CM"))
 		}
@@ -74,7 +105,7 @@ func genChunk(t *rapid.T, ps *poolSet, shape string) []rune {
 			add(0x200D)
 		}
 		if chance(t, 70) {
-			add(pick(t, ps.all))
+			add(anyRune())
 		}
 	case "spaces": // X SP* Y with the class pairs of LB8, LB14-LB17
 		switch rapid.IntRange(0, 6).Draw(t, "sp") {
@@ -92,6 +123,7 @@ func genChunk(t *rapid.T, ps *poolSet, shape string) []rune {
 			add(L("AL", "SP", "CM", "ZWJ", "BA", "HY", "GL"))
 		}
 		attach(25)
+		mark("SP")
 		for k := small.Draw(t, "n"); k > 0; k-- {
 			add(L("SP"))
 		}
@@ -107,6 +139,7 @@ func genChunk(t *rapid.T, ps *poolSet, shape string) []rune {
 		}
 		add(L("NU"))
 		attach(20)
+		mark("num")
 		for k := small.Draw(t, "n"); k > 0; k-- {
 			add(L("NU", "SY", "IS"))
 			attach(15)
@@ -123,6 +156,7 @@ func genChunk(t *rapid.T, ps *poolSet, shape string) []rune {
 			add(L("NU", "PR", "PO", "AL", "CL", "CP", "SY", "IS"))
 		}
 	case "ri": // RI pairs split by Extend / ZWJ / Format
+		mark("RI")
 		for k := 1 + small.Draw(t, "n") + small.Draw(t, "m"); k > 0; k-- {
 			add(L("RI"))
 			attach(30)
@@ -134,7 +168,7 @@ func genChunk(t *rapid.T, ps *poolSet, shape string) []rune {
 		case 0:
 			add(L("HY", "BA"))
 			attach(25)
-			add(pick(t, ps.all))
+			add(anyRune())
 		case 1:
 			add('"')
 			attach(30)
@@ -168,6 +202,7 @@ func genChunk(t *rapid.T, ps *poolSet, shape string) []rune {
 		default:
 			add(pick(t, ps.pic))
 			for k := small.Draw(t, "n"); k > 0; k-- {
+				mark("Extend")
 				for chance(t, 30) {
 					add(G("Extend"))
 				}
@@ -177,7 +212,7 @@ func genChunk(t *rapid.T, ps *poolSet, shape string) []rune {
 				if chance(t, 85) {
 					add(pick(t, ps.pic))
 				} else {
-					add(pick(t, ps.all))
+					add(anyRune())
 				}
 			}
 			if chance(t, 30) {
@@ -185,6 +220,7 @@ func genChunk(t *rapid.T, ps *poolSet, shape string) []rune {
 			}
 		}
 	case "hangul":
+		mark("hangul")
 		for k := 2 + small.Draw(t, "n"); k > 0; k-- {
 			add(G("L", "V", "T", "LV", "LVT"))
 		}
@@ -195,9 +231,9 @@ func genChunk(t *rapid.T, ps *poolSet, shape string) []rune {
 		switch small.Draw(t, "g") {
 		case 0:
 			add(G("Prepend"))
-			add(pick(t, ps.all))
+			add(anyRune())
 		case 1:
-			add(pick(t, ps.all))
+			add(anyRune())
 			add(G("SpacingMark"))
 		case 2:
 			add(G("Control", "CR", "LF"))
@@ -207,6 +243,7 @@ func genChunk(t *rapid.T, ps *poolSet, shape string) []rune {
 			add(G("Control", "CR", "Extend", "Prepend"))
 		}
 	case "katakana-enl":
+		mark("kat")
 		for k := 2 + small.Draw(t, "n"); k > 0; k-- {
 			add(W("Katakana", "ExtendNumLet", "ALetter", "Numeric", "HebrewLetter"))
 			attach(20)
@@ -236,6 +273,10 @@ func genChunk(t *rapid.T, ps *poolSet, shape string) []rune {
 			}
 			add(txt[a:b]...)
 		}
+	case "edge": // concrete edge code points (value-specific paths), not class representatives
+		for k := 1 + small.Draw(t, "n"); k > 0; k-- {
+			add(pick(t, ps.edge))
+		}
 	}
 	return out
 }
@@ -250,7 +291,7 @@ func genText(t *rapid.T, maxLen int, labels map[string]bool) []rune {
 		if labels != nil {
 			labels[shape] = true
 		}
-		out = append(out, genChunk(t, ps, shape)...)
+		out = append(out, genChunk(t, ps, shape, nil)...)
 	}
 	if len(out) > maxLen {
 		out = out[:maxLen]
@@ -273,6 +314,157 @@ func TestPropRandom(t *testing.T) {
 		if nt && ev.WantSample() {
 			ev.Sample(mkCase(algoAll, text))
 		}
+	})
+	surveyReport(t)
+}
+
+// ---- long structures (internal bounds / counters show only beyond a length) ----
+
+var exactRunLens = []int{29, 30, 31, 32, 33, 63, 64, 65, 127, 128, 129, 255, 256, 257}
+
+// shapes that contain repetition points, weighted towards the numeric / SP* / RI contexts
+var longShapes = []string{"numeric", "numeric", "numeric", "spaces", "spaces", "ri", "ri", "emoji", "emoji", "cm-chain", "hebrew", "midletter",
+	"wsegspace", "katakana-enl", "hangul", "quotes-brackets", "newline", "any"}
+
+func repeatRune(r rune, k int) []rune {
+	out := make([]rune, k)
+	for i := range out {
+		out[i] = r
+	}
+	return out
+}
+
+// longRun builds a run of k elements of the kind that repeats at an insertion point.
+func longRun(t *rapid.T, ps *poolSet, kind string, k int) (run []rune, label string) {
+	mixed := func(pools ...[]rune) []rune {
+		out := make([]rune, k)
+		for i := range out {
+			out[i] = pick(t, pools[int(u16.Draw(t, "mix"))%len(pools)])
+		}
+		return out
+	}
+	zwj := []rune{0x200D}
+	switch kind {
+	case "attach":
+		switch rapid.IntRange(0, 5).Draw(t, "attachkind") {
+		case 0:
+			return repeatRune(pick(t, ps.lineX["CM"]), k), "CM^k"
+		case 1:
+			return repeatRune(0x200D, k), "ZWJ^k"
+		case 2:
+			return repeatRune(pick(t, ps.grX["Extend"]), k), "Extend^k"
+		case 3:
+			return repeatRune(pick(t, ps.wdX["ExtFmt"]), k), "ExtFmt^k"
+		case 4:
+			return mixed(ps.line["CM"], zwj), "(CM|ZWJ)^k"
+		default:
+			return mixed(ps.line["CM"], zwj, ps.gr["Extend"], ps.extFmt), "(CM|ZWJ|Extend|Format)^k"
+		}
+	case "CM":
+		return mixed(ps.lineX["CM"]), "CM^k"
+	case "SP":
+		return repeatRune(pick(t, ps.lineX["SP"]), k), "SP^k"
+	case "num":
+		if chance(t, 50) {
+			return repeatRune(pick(t, ps.lineX["NU"]), k), "NU^k"
+		}
+		return mixed(ps.line["NU"], ps.line["NU"], ps.line["SY"], ps.line["IS"]), "(NU|SY|IS)^k"
+	case "RI":
+		if chance(t, 60) {
+			return mixed(ps.lineX["RI"]), "RI^k"
+		}
+		out := make([]rune, 0, k)
+		for len(out) < k {
+			out = append(out, pick(t, ps.line["RI"]))
+			if len(out) < k {
+				out = append(out, pick(t, ps.gr["Extend"]))
+			}
+		}
+		return out, "(RI Extend)^k"
+	case "Extend":
+		return repeatRune(pick(t, ps.grX["Extend"]), k), "Extend^k"
+	case "hangul":
+		return repeatRune(pick(t, ps.gr[pickStr(t, "L", "V", "T")]), k), "jamo^k"
+	case "kat":
+		return repeatRune(pick(t, ps.wd[pickStr(t, "Katakana", "ExtendNumLet", "ALetter", "Numeric")]), k), "wordchar^k"
+	}
+	// generic: any position of any shape
+	switch rapid.IntRange(0, 3).Draw(t, "generic") {
+	case 0:
+		return repeatRune(pick(t, ps.line["ZW"]), k), "ZW^k"
+	case 1:
+		return repeatRune(pick(t, ps.line["SP"]), k), "SP^k(anywhere)"
+	case 2:
+		return repeatRune(pick(t, ps.line["NU"]), k), "NU^k(anywhere)"
+	}
+	return repeatRune(pick(t, ps.all), k), "rep^k(anywhere)"
+}
+
+// genLongText: a few ordinary chunks around one or two chunks in which one repetition point of the
+// shape (or, sometimes, an arbitrary position) receives a long run.
+func genLongText(t *rapid.T, labels map[string]bool) []rune {
+	ps := pools()
+	var out []rune
+	ordinary := func() {
+		for n := rapid.IntRange(0, 2).Draw(t, "ordinary"); n > 0; n-- {
+			out = append(out, genChunk(t, ps, pickStr(t, shapeNames...), nil)...)
+		}
+	}
+	ordinary()
+	nLong := 1
+	if chance(t, 30) {
+		nLong = 2
+	}
+	for i := 0; i < nLong; i++ {
+		k := rapid.IntRange(1, 100).Draw(t, "runlen")
+		if nLong == 1 && chance(t, 50) {
+			k = exactRunLens[rapid.IntRange(0, len(exactRunLens)-1).Draw(t, "exact")]
+		}
+		shape := pickStr(t, longShapes...)
+		var pts []insPoint
+		chunk := genChunk(t, ps, shape, &pts)
+		pt := insPoint{at: rapid.IntRange(0, len(chunk)).Draw(t, "at"), kind: "generic"}
+		if len(pts) > 0 && chance(t, 85) {
+			pt = pts[rapid.IntRange(0, len(pts)-1).Draw(t, "point")]
+		}
+		run, label := longRun(t, ps, pt.kind, k)
+		labels["long:"+shape+":"+label] = true
+		switch {
+		case k < 29:
+			labels["runlen:<29"] = true
+		case k <= 33:
+			labels["runlen:29-33"] = true
+		case k < 63:
+			labels["runlen:34-62"] = true
+		case k <= 65:
+			labels["runlen:63-65"] = true
+		case k <= 100:
+			labels["runlen:66-100"] = true
+		case k <= 129:
+			labels["runlen:127-129"] = true
+		default:
+			labels["runlen:255-257"] = true
+		}
+		out = append(out, chunk[:pt.at]...)
+		out = append(out, run...)
+		out = append(out, chunk[pt.at:]...)
+		ordinary()
+	}
+	return out
+}
+
+func TestPropLong(t *testing.T) {
+	defer flushHits()
+	rapid.Check(t, func(rt *rapid.T) {
+		lab := map[string]bool{}
+		text := genLongText(rt, lab)
+		nt := checkText(rt, "long", algoAll, text)
+		labels := make([]string, 0, len(lab)+1)
+		for s := range lab {
+			labels = append(labels, s)
+		}
+		labels = append(labels, fmt.Sprintf("longlen:%03d-%03d", len(text)/100*100, len(text)/100*100+99))
+		ev.Case(nt, string(text), labels...)
 	})
 	surveyReport(t)
 }
@@ -337,7 +529,11 @@ func TestPropRealText(t *testing.T) {
 		// a few foreign runes spliced in (real text next to hostile classes)
 		for m := rapid.IntRange(0, 3).Draw(rt, "splices"); m > 0; m-- {
 			p := rapid.IntRange(0, len(text)).Draw(rt, "at")
-			text = append(text[:p], append([]rune{pick(rt, ps.all)}, text[p:]...)...)
+			x := pick(rt, ps.all)
+			if chance(rt, 50) {
+				x = pick(rt, ps.edge)
+			}
+			text = append(text[:p], append([]rune{x}, text[p:]...)...)
 		}
 		nt := checkText(rt, "realtext", algoAll, text)
 		label := "real:embedded"
